@@ -125,10 +125,10 @@ register('C09', title='peak/trough mirror',
 
 register('C10', title='amplitude / rate covariance',
          deciding=['compute_features'],
-         rule='metamorphic triples: base run, signal x a (a = 2^k, k in -10..10), fs and band x c (c in {1/4,1/2,2,4}, filter length in '
+         rule='metamorphic triples: base run, signal x a (a = 2^k, k in -10..10 for half of the cases, -60..60 for the rest), fs and band x c (c in {1/4,1/2,2,4}, filter length in '
               'cycles, no durations in seconds); exact comparison (voltages x a exactly; band_amp within 1e-12). Non-trivial = >= 5 rows '
               'and >= 1 burst cycle in the base run; distinct by SHA-1 of the case.',
-         floors={'quick': {'nontrivial': 50, 'classes': {'compared:amplitude': 100, 'compared:rate': 100}},
+         floors={'quick': {'nontrivial': 50, 'classes': {'compared:amplitude': 100, 'compared:rate': 100, 'a=2^[<-26]': 10, 'a=2^[>26]': 10}},
                  'thorough': {'nontrivial': 2000}},
          assumptions=PIPE_ASSUME + ['powers of two commute exactly with IEEE arithmetic (no under/overflow in the generated range)'],
          quick_shards=8, thorough_shards=16)
@@ -193,7 +193,8 @@ register('C19', title='invalid settings rejected',
 register('C14', title='objects = functional API, no stale state',
          deciding=['history_fit_compared'],
          rule='random histories of length 2-10 over {fit(sig_k), recompute_edges(r), load, edit a threshold, edit min_n_cycles, edit / delete '
-              'burst options, set centre} on one Bycycle object with 2-4 signals, both methods and centrings, shorthand and full threshold '
+              'burst options, set centre, in-place edit of a fitted array} on one Bycycle object with 2-4 signals (the same array objects are '
+              're-used across the fits of a history), both methods and centrings, shorthand and full threshold '
               'names; every history of length <= 3 (4 thorough) over a reduced alphabet, both methods (exhaustive); BycycleGroup 2-D / 3-D fits. '
               'Oracle: an executable model keeps the user\'s view of the settings (deep copies of what was passed / assigned); after every fit '
               'the table must equal that of a freshly constructed object with those settings and that of compute_features (expanded names); '
@@ -275,7 +276,7 @@ register('C20', title='plots draw the analysis',
               'plot_burst_detect_summary and Bycycle.plot. Oracle (artist inspector under Agg): every marker at a sample time, on a genuine '
               'cyclepoint of its series (drawing order), y == the plotted trace at that sample, every cyclepoint strictly inside the plotted '
               'view drawn; highlighted samples (unmasked part of the burst line) subset of burst cycles and superset of every burst cycle '
-              'inside the view; panel points == (centre, value) of cycles [steps: (last side, next side, value)], every cycle strictly inside '
+              'inside the view; panel points == (centre, value) of cycles [steps: (last side, next side, value)], every cycle lying entirely inside '
               'the view shown, threshold line at the given threshold; an exception is a violation. Non-trivial (summary) = view cuts >= 1 '
               'cycle and contains >= 1 burst and >= 1 non-burst cycle.',
          floors={'quick': {'nontrivial': 30, 'classes': {'markers_checked': 2000, 'panels_checked': 100}}, 'thorough': {'nontrivial': 1000}},
